@@ -327,7 +327,8 @@ class ClientGenerator:
                 has_diff_core = False
                 if core_dir != out_dir:
                     self._log_progress(f"Checking core package differences", "DIFF_CORE")
-                    has_diff_core = self._show_diffs(str(core_dir), str(tmp_core_dir_for_diff))
+                    # force=True only wipes the client package: what else lives in an external (shared) core stays
+                    has_diff_core = self._show_diffs(str(core_dir), str(tmp_core_dir_for_diff), report_stale=False)
 
                 if has_diff_client or has_diff_core:
                     self._log_progress("Differences found, not updating existing output", "DIFF_RESULT")
@@ -598,29 +599,40 @@ class ClientGenerator:
         """
         return fetch_spec(path_or_url)
 
-    def _show_diffs(self, old_dir: str, new_dir: str) -> bool:
+    def _show_diffs(self, old_dir: str, new_dir: str, report_stale: bool = True) -> bool:
         """
         Compare two directories and print diffs, returning True if any differences.
         Args:
             old_dir (str): Path to the old directory.
             new_dir (str): Path to the new directory.
+            report_stale (bool): Whether a file that exists only in the old directory is a difference.
         Returns:
             bool: True if differences are found, False otherwise.
         """
         import difflib
 
+        def files_of(root: str) -> set[Path]:
+            # Every generated artefact counts (py.typed, README.md, .exception_registry.json), not only modules
+            files = {p.relative_to(root) for p in Path(root).rglob("*") if p.is_file()}
+            return {rel for rel in files if "__pycache__" not in rel.parts}
+
         has_diff = False
-        for new_file in Path(new_dir).rglob("*.py"):
-            old_file = Path(old_dir) / new_file.relative_to(new_dir)
-            if old_file.exists():
-                old_lines = old_file.read_text().splitlines()
-                new_lines = new_file.read_text().splitlines()
-                diff = list(difflib.unified_diff(old_lines, new_lines, fromfile=str(old_file), tofile=str(new_file)))
-                if diff:
-                    has_diff = True
-                    print("\n".join(diff))
-            else:
+        old_files, new_files = files_of(old_dir), files_of(new_dir)
+        for rel_path in sorted(new_files):
+            old_file, new_file = Path(old_dir) / rel_path, Path(new_dir) / rel_path
+            if rel_path not in old_files:
                 # A file that would be generated now is missing from the existing output
                 has_diff = True
                 print(f"Missing file in existing output: {old_file}")
+            elif old_file.read_bytes() != new_file.read_bytes():
+                has_diff = True
+                old_lines = old_file.read_bytes().decode(errors="replace").splitlines()
+                new_lines = new_file.read_bytes().decode(errors="replace").splitlines()
+                diff = list(difflib.unified_diff(old_lines, new_lines, fromfile=str(old_file), tofile=str(new_file)))
+                print("\n".join(diff) if diff else f"Files differ in line endings or final newline: {old_file}")
+        if report_stale:
+            for rel_path in sorted(old_files - new_files):
+                # A file that would not be generated now; force=True replaces the whole directory
+                has_diff = True
+                print(f"Stale file in existing output: {Path(old_dir) / rel_path}")
         return has_diff
